@@ -47,9 +47,11 @@ def corpus(tier, seed):
             for st in ('bench', 'verilog', 'lean'):
                 if st != style: items.append((('nl', nl.to_json(), st), 9, 'plain'))
     for nl in netlist.g2_shapes() + layered_shapes():
-        for style in ('verilog', 'bench'):
+        for style in ('verilog', 'bench', 'lean'):
             items.append((('nl', nl.to_json(), style), 3, 'plain+opts'))
-            if nl.state_gates(): items.append((('nl', nl.to_json(), style), 3, 'cycle2+opts'))
+            if nl.state_gates():
+                items.append((('nl', nl.to_json(), style), 3, 'cycle2+opts'))
+                items.append((('nl', nl.to_json(), style), 3, 'cycle3+opts'))
     for r in netlist.G4:
         items.append((r, 9, 'plain'))
         items.append((r, 3, 'plain+opts'))
